@@ -624,6 +624,36 @@ def r9_own_members_kept(ctx, rep):
         raise AnalysisError("no hand-over of documented members between entities found (FortranCodeUnit.correlate: proc.args = base.args)")
 
 
+def r10_every_item_is_converted(ctx, rep):
+    """The Markdown pass turns every entity's comment into its `doc`.  An entity may already carry a provisional `doc` when the pass
+    reaches it (an inherited component is given the placeholder "Inherited from [[base]]" during correlation), so nothing about
+    the item may decide whether it is converted: in the loop of Project.markdown the call `item.markdown(md)` is unconditional."""
+    py = ctx.py
+    fn = py.func("Project.markdown")
+    ev = [e for e in astq.trace(fn) if e.kind == "call" and isinstance(e.node.func, ast.Attribute) and e.node.func.attr == "markdown"
+          and e.loops]
+    if not ev:
+        raise AnalysisError("Project.markdown: the per-item conversion call was not found")
+    for e in ev:
+        item = ast.unparse(e.node.func.value)
+        loop = e.loops[-1]
+        # conditions that were added inside the loop (those of the loop's surroundings are about the run, not about the item)
+        outer = {id(t) for t, _p, _s in next((x.conds for x in astq.trace(fn) if x.kind == "loop" and x.node is loop), [])}
+        inner = [(t, p_) for t, p_, _s in e.conds if id(t) not in outer]
+        ok = not inner
+        rep.ob(f"Project.markdown: `{ast.unparse(e.node)}` runs for every item", ok,
+               "no test inside the loop decides whether an item is converted" if ok else
+               f"`{item}.markdown(md)` runs only under {[ast.unparse(t) if p_ else 'not (' + ast.unparse(t) + ')' for t, p_ in inner]}: an entity "
+               f"that already has a provisional `doc` (inherited components get a placeholder during correlation) keeps the placeholder - "
+               f"its comment is never rendered", py.nloc(e.node))
+
+
+def r11_comment_recogniser(ctx, rep):
+    """what is a documentation comment is decided by the Fortran comment rule (shared with C02.R1)"""
+    from . import c02
+    c02.r1_comment_recogniser(ctx, rep)
+
+
 RULES = [
     RuleSpec("C03.R1", r1_one_docstring_read, "one docstring read and one registration per declaration", floor=8),
     RuleSpec("C03.R2", r2_marker_length, "marker-length agreement between sibling implementations", floor=4),
@@ -634,4 +664,6 @@ RULES = [
     RuleSpec("C03.R7", r7_meta_key_guard, "metadata continuation needs an open key", floor=1),
     RuleSpec("C03.R9", r9_own_members_kept, "an entity keeps the documented members parsed from its own source", floor=2),
     RuleSpec("C03.R8", r8_summary_needs_a_page, "a summary replaces the full text only where the entity has a page", floor=10),
+    RuleSpec("C03.R10", r10_every_item_is_converted, "the Markdown pass converts every item it visits", floor=1),
+    RuleSpec("C03.R11", r11_comment_recogniser, "what is a documentation comment is decided by the Fortran comment rule (shared with C02.R1)", floor=1),
 ]
